@@ -6,6 +6,7 @@ package posex
 import (
 	"encoding/binary"
 	"hash"
+	"net/http"
 	"sync"
 	"sync/atomic"
 
@@ -63,4 +64,10 @@ func twoVarintsInOneScratch(a, b uint64) []byte {
 	n := binary.PutUvarint(hdr[:], a)
 	n += binary.PutUvarint(hdr[n:], b)
 	return hdr[:n]
+}
+
+// asksForGzipItself sets Accept-Encoding by hand: net/http then hands the
+// compressed body to the caller (positive example for C12.D5 "body as sent").
+func asksForGzipItself(req *http.Request) {
+	req.Header.Set("Accept-Encoding", "gzip")
 }
